@@ -333,6 +333,54 @@ pub fn run(ctx: &mut Ctx, dom: &str, a: &[Arg]) {
                 walk(ctx, &g, &h);
             }
         }
+        "hiters" => {
+            // iterator histories over the tags of a loaded header: new / next / clone / nth on a pool of iterators;
+            // a panicking call is caught and the iterator stays in the pool as the call left it
+            let g = Guarded::new(a[0].b(), 0, ctx.place_end);
+            if let Some(h) = load(ctx, &g) {
+                let mut pool: Vec<multiboot2_header::TagIter> = Vec::new();
+                for op in a[1].l() {
+                    let op = op.l();
+                    match op[0].n() {
+                        0 => {
+                            ctx.ln("new", format!("{}", pool.len()));
+                            pool.push(h.iter());
+                        }
+                        2 => {
+                            let i = op[1].u();
+                            if i < pool.len() {
+                                ctx.ln("clone", format!("{}", pool.len()));
+                                let c = pool[i].clone();
+                                pool.push(c);
+                            } else {
+                                ctx.ln("clone", "skip");
+                            }
+                        }
+                        1 | 3 => {
+                            let key = if op[0].n() == 1 { "next" } else { "nth" };
+                            let i = op[1].u();
+                            if i < pool.len() {
+                                let it = &mut pool[i];
+                                let r = if op[0].n() == 1 {
+                                    guard(|| it.next())
+                                } else {
+                                    let k = op[2].u();
+                                    guard(|| it.nth(k))
+                                };
+                                match r {
+                                    Ok(Some(t)) => ctx.ln(key, format!("VAL some {}", htag_line(&g, t))),
+                                    Ok(None) => ctx.ln(key, "VAL none"),
+                                    Err(()) => ctx.ln(key, "PANIC"),
+                                }
+                            } else {
+                                ctx.ln(key, "skip");
+                            }
+                        }
+                        _ => ctx.ln("op", "bad"),
+                    }
+                }
+            }
+        }
         "hdr" => {
             let g = Guarded::new(a[0].b(), 0, ctx.place_end);
             if let Some(h) = load(ctx, &g) {
